@@ -242,6 +242,9 @@ func (ep *episode) setup() {
 		wb := b.(*errWorkerBinder[int])
 		ep.w = b
 		ep.proj = projOf(ep, wb.worker)
+		ep.g.mu.Lock()
+		ep.g.proj = ep.proj
+		ep.g.mu.Unlock()
 		ep.bind = func(kind string) *hQueue {
 			switch kind {
 			case "fifo":
@@ -282,6 +285,9 @@ func (ep *episode) setup() {
 		wb := b.(*resultWorkerBinder[int, int])
 		ep.w = b
 		ep.proj = projOf(ep, wb.worker)
+		ep.g.mu.Lock()
+		ep.g.proj = ep.proj
+		ep.g.mu.Unlock()
 		ep.bind = func(kind string) *hQueue {
 			switch kind {
 			case "fifo":
@@ -322,6 +328,9 @@ func (ep *episode) setup() {
 		wb := b.(*workerBinder[int])
 		ep.w = b
 		ep.proj = projOf(ep, wb.worker)
+		ep.g.mu.Lock()
+		ep.g.proj = ep.proj
+		ep.g.mu.Unlock()
 		ep.bind = func(kind string) *hQueue {
 			switch kind {
 			case "fifo":
@@ -722,10 +731,11 @@ func (c *chooser) pick(ps []*gproc) *gproc {
 // ---- running one episode
 
 type epResult struct {
-	Events  []event
-	Result  string // ok | budget | stuck
-	Steps   int
-	Choices []string
+	Events   []event
+	Result   string // ok | budget | stuck
+	Steps    int
+	Choices  []string
+	Diverged int // replayed choices whose process was not parked
 }
 
 func (ep *episode) quiescentEvent(blocked []string, label string, settled bool) {
@@ -788,9 +798,6 @@ func runEpisode(prog *progSpec) (res epResult) {
 	VerifHook = g.hook
 	defer func() { VerifHook = nil }()
 	ep.setup()
-	g.mu.Lock()
-	g.proj = ep.proj
-	g.mu.Unlock()
 	if prog.Cfg.ErrsReader {
 		ch := ep.w.Errs()
 		go func() {
@@ -875,6 +882,7 @@ func runEpisode(prog *progSpec) (res epResult) {
 				break
 			}
 			p := ch.pick(ps)
+			res.Diverged = ch.diverged
 			res.Choices = append(res.Choices, p.name)
 			res.Steps++
 			g.releaseProc(p)
